@@ -46,6 +46,10 @@ pub enum WriteOp {
 pub enum Cmd {
     Advance { ms: u64 },
     Write { p: usize, op: WriteOp, key: String, val: ValSpec },
+    /// a local set during which another application thread drops the handle of subscription `sub`:
+    /// the drop is started from inside the first callback the write triggers (the registry is locked
+    /// for reading then) and has to take effect once the write is over
+    WriteDropping { p: usize, key: String, val: ValSpec, sub: usize },
     Syn { a: usize, b: usize },
     /// deliver the idx-th oldest datagram in flight on link from->to; keep = deliver a duplicate
     Deliver { from: usize, to: usize, idx: usize, keep: bool },
@@ -90,6 +94,7 @@ impl Cmd {
         match self {
             Cmd::Advance { .. } => "advance",
             Cmd::Write { .. } => "write",
+            Cmd::WriteDropping { .. } => "write_while_another_thread_drops_a_handle",
             Cmd::Syn { .. } => "syn",
             Cmd::Deliver { keep: false, .. } => "deliver",
             Cmd::Deliver { keep: true, .. } => "duplicate",
